@@ -79,6 +79,7 @@ type Node struct {
 	factoryID int64
 	asmRound  basics.Round // block factory: assemblies of the current round so far (survives crashes, like a clock)
 	asmCount  int64
+	stalled   bool // main loop blocked behind a slow ledger flush: no deliveries, no timers until the flush action
 	stimmed   bool // this step handed the node's main loop an event; stimSnap = its demux.next count before that
 	stimSnap  int
 	stimInst  *inst
@@ -250,14 +251,15 @@ func (s *Sim) quiesce() {
 		if !opened {
 			// A main loop that is not back in its select although the bubble is quiescent is blocked on the
 			// persistence queue (two persists already wait behind a slow ledger flush). Messages delivered now
-			// would pile up unread and be consumed in a race once the flush comes. The disk catches up first.
+			// would pile up unread and be consumed in a race once the flush comes.
 			for _, n := range s.stalledNodes() {
-				k := n.led.flush()
-				s.twinFlush(n)
-				s.log.Add("flush n%d released=%d (main loop blocked on the persistence queue)", n.id, k)
-				s.stat("flush_forced_by_stall", 1)
-				opened = true
-				break
+				if !n.stalled {
+					// the node is frozen behind its slow disk: nothing is delivered to it and none of its timers fire
+					// until the scheduler's flush action releases it (a long disk stall; the messages wait in flight)
+					n.stalled = true
+					s.log.Add("  n%d stalls: main loop blocked on the persistence queue until its ledger flush", n.id)
+					s.stat("stalled_behind_slow_flush", 1)
+				}
 			}
 		}
 		if !opened {
@@ -714,6 +716,7 @@ func (s *Sim) finishCrash(n *Node, why string) {
 		s.dropTwin("original crashed")
 	}
 	n.alive = false
+	n.stalled = false
 	n.crashes++
 	s.crashes++
 	in := n.cur
@@ -770,7 +773,7 @@ func (s *Sim) deliverable() []int {
 	var idx []int
 	for i, f := range s.inflight {
 		d := s.nodes[f.to]
-		if d.alive && d.starve == 0 && s.linkOK(f.from, f.to) && f.notBefore <= s.step {
+		if d.alive && d.starve == 0 && !d.stalled && s.linkOK(f.from, f.to) && f.notBefore <= s.step {
 			if d.holdUntil > s.step && f.hasHdr && f.vr == d.holdRound && f.vs == stepCert {
 				continue // delayed, not lost
 			}
@@ -799,7 +802,7 @@ func (s *Sim) removeFlight(i int) *flight {
 func (s *Sim) timerNodes() []*Node {
 	var l []*Node
 	for _, n := range s.nodes {
-		if !n.alive || n.starve > 0 {
+		if !n.alive || n.starve > 0 || n.stalled {
 			continue
 		}
 		if s.cfg.CleanHunt && s.hunt == nil && s.clockHeld(n) {
@@ -1041,6 +1044,9 @@ func (s *Sim) asyncStep() {
 		// service's goroutines (determinism self-test under load: 2 of 10 seeds diverged in 1 of 12 processes).
 		// Sends, ensures, persists and assemblies happen once per action, in event order.
 		masks := []uint32{1 << seamSend, 1 << seamSend, 1 << seamWaitPersist, 1 << seamWaitPersist, 1 << seamEnsure, 1 << seamSend, 1 << seamEnsure, 1 << seamAssemble}
+		if os.Getenv("VERIF_DBG_OLDMASKS") != "" {
+			masks = []uint32{1 << seamSend, 1 << seamSend, 1 << seamWaitPersist, 1 << seamWaitPersist, 1 << seamEnsure, 1 << seamTimer, 1 << seamWaitDemux, 1 << seamAssemble}
+		}
 		m := masks[rB%len(masks)]
 		k := 1 + rC%12
 		n.cur.mu.Lock()
@@ -1165,6 +1171,7 @@ func (s *Sim) asyncStep() {
 		s.fireTimer(tn[rA%len(tn)])
 	case aFlush:
 		n := pf[rA%len(pf)]
+		n.stalled = false
 		k := n.led.flush()
 		s.twinFlush(n)
 		s.log.Add("flush n%d released=%d", n.id, k)
